@@ -108,7 +108,8 @@ T(S, t) == S.thr[t]
 SetT(S, t, rec) == [S EXCEPT !.thr[t] = rec]
 Free(S, t) == SetT(S, t, IF t = "acc" THEN AccIdle ELSE NoThread)
 Done(S, t, res) == SetT(S, t, [NoThread EXCEPT !.k = S.thr[t].k, !.pc = "done", !.id = S.thr[t].id, !.i = S.thr[t].i,
-                                                 !.why = S.thr[t].why, !.out = res])
+                                                 !.why = S.thr[t].why, !.out = res,
+                                                 !.tries = IF S.thr[t].k = "stop" THEN S.thr[t].tries ELSE 0])
 CbAdd(S, r, i, c) == [S EXCEPT !.cb[r][i] = Append(@, c)]
 SetInst(S, i, f, v) ==
   [S EXCEPT !.inst[i] = CASE f = "st" -> [@ EXCEPT !.st = v] [] f = "sp" -> [@ EXCEPT !.sp = v] [] f = "remf" -> [@ EXCEPT !.remf = v]]
